@@ -18,10 +18,12 @@ Dissent(kind) ==
     [] kind = "empty"   -> {}
 Kinds7 == {"none", "path", "digest", "alg", "algmore", "extra", "missing", "empty"}
 
+\* the dissenting signer may also (or only) have run another COMMAND: that is merely warned about
 LinkFor(k, dissents, kind, side) ==
-  LinkD("s1", <<GoodSig(k)>>,
-        IF dissents /\ side = "mats" THEN Dissent(kind) ELSE Base,
-        IF dissents /\ side = "prods" THEN Dissent(kind) ELSE Base)
+  [LinkD("s1", <<GoodSig(k)>>,
+         IF dissents /\ side = "mats" THEN Dissent(kind) ELSE Base,
+         IF dissents /\ side = "prods" THEN Dissent(kind) ELSE Base)
+   EXCEPT !.cmd = IF dissents /\ (kind = "none" \/ side = "prods") THEN "c.other" ELSE "c.s1"]
 
 Ignored(kind) ==
   CASE kind = "none"    -> << >>
